@@ -174,3 +174,40 @@ Theorem C12_result_codes_fit_the_literal_type : forall cfg a o r maxc,
 Proof. exact renumber_codes_fit. Qed.
 Print Assumptions C12_result_codes_fit_the_literal_type.
 
+
+(* COMPLETENESS OF THE ERROR REPORTS (RenumberComplete.v).  "A graph with a combinational cycle or an undefined literal yields
+   the corresponding error instead of a wrong circuit": whenever a circuit is returned, everything reachable from a root
+   (outputs, latch next-states, bad, constraint, justice, fairness literals — and every gate output when trim is off:
+   `roots cfg a`) is defined and lies on no cycle; equivalently a reachable cycle or undefined literal is always rejected
+   with a real error (never a panic, never fuel exhaustion), under all 8 option combinations, also behind foldable gates.
+   With trim on, gates no root reaches are dropped unvisited (pinned by `complete_unreachable_examples`). *)
+From Flussab Require Import RenumberComplete.
+
+Theorem C12_returned_circuit_reaches_only_defined_variables : forall cfg a o r,
+  renumber_aig cfg a = RnOk o r ->
+  forall root v, In root (roots cfg a) -> clos_refl_trans N (dep a) (N.div2 root) v ->
+    In v (defined_vars a).
+Proof. exact renumber_ok_reachable_defined. Qed.
+Print Assumptions C12_returned_circuit_reaches_only_defined_variables.
+
+Theorem C12_returned_circuit_reaches_no_cycle : forall cfg a o r,
+  renumber_aig cfg a = RnOk o r ->
+  forall root v, In root (roots cfg a) -> clos_refl_trans N (dep a) (N.div2 root) v ->
+    ~ clos_trans N (dep a) v v.
+Proof. exact renumber_ok_reachable_acyclic. Qed.
+Print Assumptions C12_returned_circuit_reaches_no_cycle.
+
+Theorem C12_reachable_cycle_or_undefined_literal_is_rejected : forall cfg a,
+  (exists root v, In root (roots cfg a) /\ clos_refl_trans N (dep a) (N.div2 root) v /\
+     (~ In v (defined_vars a) \/ clos_trans N (dep a) v v)) ->
+  exists e, renumber_aig cfg a = RnErr e.
+Proof. exact renumber_rejects_bad_reachable. Qed.
+Print Assumptions C12_reachable_cycle_or_undefined_literal_is_rejected.
+
+Theorem C12_reachable_cycle_or_undefined_literal_error_kind : forall cfg a,
+  wf_defs a ->
+  (exists root v, In root (roots cfg a) /\ clos_refl_trans N (dep a) (N.div2 root) v /\
+     (~ In v (defined_vars a) \/ clos_trans N (dep a) v v)) ->
+  exists l, renumber_aig cfg a = RnErr (LitNotDefined l) \/ renumber_aig cfg a = RnErr (FoundCycle l).
+Proof. exact renumber_rejects_bad_reachable_wf. Qed.
+Print Assumptions C12_reachable_cycle_or_undefined_literal_error_kind.
